@@ -284,6 +284,9 @@ def obs_decisions(case, block):
 
 
 def obs_panic(case, block):
+    if case.kind == "fn" and case.lines and case.lines[0].startswith("validate_"):
+        # the validation module reports everything through its return value: the whole result is observed
+        return block
     return [l for l in block if "panic" in l]
 
 
@@ -318,25 +321,33 @@ class Engine:
                            stdout=subprocess.PIPE, stderr=subprocess.STDOUT, timeout=900, cwd=os.path.join(BUILD, "audit"))
         out = p.stdout.decode()
         closed = out.count("Closed under the global context")
-        axioms = []
-        for m in re.finditer(r"Axioms:\n((?:.+\n)+?)(?=\S.*:|\Z)", out):
-            pass
-        # collect every axiom line printed after "Axioms:" headers
-        inax = False
+        # one block per Print Assumptions, in the order of [names]
+        blocks, cur = [], None
         for line in out.split("\n"):
-            if line.startswith("Axioms:"):
-                inax = True
-                continue
-            if inax:
+            if line.startswith("Closed under the global context"):
+                blocks.append([]); cur = None
+            elif line.startswith("Axioms:"):
+                cur = []; blocks.append(cur)
+            elif cur is not None:
                 if line.startswith(" ") or line.startswith("\t") or line == "":
                     continue
-                m = re.match(r"([A-Za-z0-9_.']+)\s*:", line)
-                if m and not line.startswith("Closed"):
-                    axioms.append(m.group(1))
+                m = re.match(r"([A-Za-z0-9_.']+)\s*(:|$)", line)
+                if m:
+                    cur.append(m.group(1))
                 else:
-                    inax = False
+                    cur = None
         allow = set(self.P.get("axiom_allow", []))
-        bad_ax = [a for a in axioms if a not in allow]
+        allow_for = self.P.get("axiom_allow_for", {})
+        axioms, bad_ax, per_thm = [], [], {}
+        if len(blocks) != len(names):
+            bad_ax.append("Print Assumptions blocks (%d) do not match the pinned theorems (%d)" % (len(blocks), len(names)))
+        for n, blk in zip(names, blocks):
+            if blk:
+                per_thm[n] = blk
+            for a in blk:
+                axioms.append(a)
+                if a not in allow and a not in set(allow_for.get(n, [])):
+                    bad_ax.append("%s: %s" % (n, a))
         # forbidden tokens anywhere in the development
         bad_tok = []
         for root_, _, files in os.walk(os.path.join(COQ, "theories")):
@@ -349,7 +360,7 @@ class Engine:
         ok = (p.returncode == 0) and not bad_ax and not bad_tok and len(names) > 0 and (closed + (1 if axioms else 0) >= 1)
         self.audit_info = dict(theorems=names, obligations=len(names),
                                discharged=len(names) if p.returncode == 0 else 0,
-                               closed=closed, axioms=sorted(set(axioms)), bad_axioms=bad_ax, bad_tokens=bad_tok,
+                               closed=closed, axioms=sorted(set(axioms)), axioms_per_theorem=per_thm, bad_axioms=bad_ax, bad_tokens=bad_tok,
                                rc=p.returncode, tail=out[-600:] if p.returncode != 0 else "")
         return ok
 
@@ -667,12 +678,14 @@ class Engine:
             samples=self.ev["samples"][:3] or ["(no cases)"],
             traces_validated_against_impl=self.corr["cases"],
             correspondence=self.corr, outcome_distribution=dict(self.ev["dist"].most_common(30)),
-            theorems=ai.get("theorems", []), axioms_reported=ai.get("axioms", []),
+            theorems=ai.get("theorems", []), axioms_reported=ai.get("axioms", []), axioms_per_theorem=ai.get("axioms_per_theorem", {}),
             known_findings_hit=dict(self.known_hits), notes=self.notes[:20],
             exhaustive=False)
         ev = dict(property_id=self.pid, tier=self.tier if self.tier in ("quick", "thorough") else "quick",
                   seed=self.seed, level="proof", coverage=cov,
-                  assumptions=TRUSTED_BASE + self.P.get("assumptions", []),
+                  assumptions=TRUSTED_BASE + self.P.get("assumptions", []) +
+                  ["Theorem %s depends on the standard-library axioms %s (allowlisted by name for this theorem only)" % (n, ", ".join(a))
+                   for n, a in sorted(ai.get("axioms_per_theorem", {}).items())],
                   wall_s=round(wall, 2), violations=getattr(self, "violations", 0))
         json.dump(ev, open(os.path.join(VERIF, "evidence", self.pid + ".json"), "w"), indent=1)
 
@@ -1197,8 +1210,9 @@ PROPS.update({
     "C11": dict(fams=[("fam_frag", 300, 20000)], checks=["C11"], obs=obs_frag_timing, components=["K8"],
                 nontrivial=lambda c, b: sum(1 for l in b if l.startswith("r seg ") and not l.endswith("none")) >= 2),
     "C12": dict(fams=[("fam_fn_annexb", 300, 20000), ("fam_fn_codec", 400, 20000), ("fam_contract", 200, 5000),
-                      ("fam_mux_basic", 150, 3000), ("fam_frag", 100, 3000), ("fam_sink", 50, 500)],
-                checks=[], obs=obs_panic, components=["K1", "K2", "K3", "K4", "K5", "K6", "K7", "K8", "K10"],
+                      ("fam_mux_basic", 150, 3000), ("fam_frag", 100, 3000), ("fam_sink", 50, 500), ("fam_validation", 300, 20000),
+                      ("fam_encode_paths", 60, 2000), ("fam_reject_gap", 40, 1000)],
+                checks=[], obs=obs_panic, components=["K1", "K2", "K3", "K4", "K5", "K6", "K7", "K8", "K9", "K10"],
                 nontrivial=lambda c, b: True),
     "C13": dict(fams=[("fam_sink", 150, 1500), ("fam_sink_points", 120, 3000)], checks=[], extra=extra_C13, obs=obs_none,
                 components=["K10"], nontrivial=lambda c, b: any(l.startswith("r err Io") for l in b)),
@@ -1758,3 +1772,13 @@ for _p in ("C01", "C02", "C03", "C07", "C09", "C15", "C16", "C19"):
 PROPS["C09"]["fams"] = PROPS["C09"]["fams"] + [("fam_reject_matrix", 150, 3000)]
 for _p in ("C03", "C04", "C05", "C06", "C09", "C16"):
     PROPS[_p]["fams"] = PROPS[_p]["fams"] + [("fam_reject_gap", 60, 1500)]
+
+# the only theorems allowed to depend on axioms: the binary64 round-trip fact proved with Flocq and the two
+# history-level theorems that use it; the axioms are the standard library's classical real-number axioms
+REALS_AXIOMS = ["ClassicalDedekindReals.sig_not_dec", "ClassicalDedekindReals.sig_forall_dec",
+                "FunctionalExtensionality.functional_extensionality_dep", "Classical_Prop.classic"]
+PROPS["C06"]["axiom_allow_for"] = {
+    "C06_duration_roundtrip": REALS_AXIOMS,
+    "C06_history_accounts_for_everything": REALS_AXIOMS,
+    "C06_history_accounts_for_everything_any_sink": REALS_AXIOMS,
+}
